@@ -8,10 +8,12 @@ set -e
 id="$1"; wt="$2"; name="${3:-$id}"
 dst=/verif/seeded/$name
 mkdir -p "$dst"
-git -C "$wt" diff -- src > "$dst/patch.diff"
+if [ "$wt" != "-" ]; then   # "-" = re-verify an already imported seed
+  git -C "$wt" diff -- src > "$dst/patch.diff"
+  cp "$wt/demo.py" "$dst/demo.py"
+  [ -f "$wt/NOTES.md" ] && cp "$wt/NOTES.md" "$dst/NOTES.md"
+fi
 [ -s "$dst/patch.diff" ] || { echo "empty diff"; exit 2; }
-cp "$wt/demo.py" "$dst/demo.py"
-[ -f "$wt/NOTES.md" ] && cp "$wt/NOTES.md" "$dst/NOTES.md"
 base=$(mktemp -d /tmp/vf_seed.XXXXXX); mod=$(mktemp -d /tmp/vf_seed.XXXXXX)
 trap 'rm -rf "$base" "$mod"' EXIT
 git -C /repo archive HEAD src tests pyproject.toml | tar -x -C "$base"
@@ -22,7 +24,12 @@ set +e
 (cd "$mod" && PYTHONPATH="$mod/src" /venv/bin/python "$dst/demo.py" > "$dst/demo_modified.log" 2>&1); rc1=$?
 (cd "$mod" && PYTHONPATH="$mod/src" /venv/bin/python -m pytest -q -p no:cacheprovider -n 10 --timeout=900 tests 2>&1 | tail -1 > "$dst/suite_modified.log")
 suite=$(sed 's/\x1b\[[0-9;]*m//g' "$dst/suite_modified.log")
-VERIF_REPO_SRC="$mod/src" VERIF_NO_EVIDENCE=1 /verif/check "$id" --tier quick > "$dst/check_modified.log" 2>&1; rcc=$?
+: > "$dst/check_modified.log"
+res=""
+for cid in $(echo "${CHECKS:-$id}" | tr ',' ' '); do
+  VERIF_REPO_SRC="$mod/src" VERIF_NO_EVIDENCE=1 /verif/check "$cid" --tier quick >> "$dst/check_modified.log" 2>&1; rcc=$?
+  res="$res $cid=$rcc"
+done
 set -e
-echo "$name: demo unmodified exit=$rc0 modified exit=$rc1; suite: $suite; check $id exit=$rcc"
-grep "failure" "$dst/check_modified.log" | cut -c1-220 | head -3
+echo "$name: demo unmodified exit=$rc0 modified exit=$rc1; suite: $suite; checks:$res"
+grep "failure" "$dst/check_modified.log" | cut -c1-220 | head -4
